@@ -96,7 +96,7 @@ def search(res, tier, boost=False):
         elems = [e for e in mesh.leaf_elements if ok_aspect(e, 16)]
         if not elems:
             continue
-        special = [(a, b) for a, b, _ in seam_and_corner_pairs(rng, gamma, n_pairs) if ok_aspect(a, 8) and ok_aspect(b, 8)]
+        special = [(a, b) for a, b, _ in seam_and_corner_pairs(rng, gamma, max(n_pairs, 12)) if ok_aspect(a, 8) and ok_aspect(b, 8)]
         for it in range(n_pairs + len(special)):
             if it < n_pairs:
                 te, tr = rng.choice(elems), rng.choice(elems)
